@@ -1,6 +1,6 @@
 (* Entry points used by the extracted OCaml driver (and by generated cases.v
    files evaluated with vm_compute). *)
-From SV Require Export Checkers.AllocChk Checkers.ConcChk.
+From SV Require Export Checkers.AllocChk Checkers.ConcChk World.Lazy.
 
 (* sorting of uid lists (canonical order where the real order is unspecified) *)
 Fixpoint ins_sorted (x : N) (l : list N) : list N :=
@@ -27,25 +27,43 @@ Definition enc_effects (o : op) (c : ctx) : list Z :=
   let d := canon_drops o c in
   10%Z :: Z.of_N (cx_mints c) :: Z.of_nat (length d) :: map Z.of_N d.
 
-(* model transcript: per op the output and the effects; ends with [9] at the
-   first stuck state; nothing after the world was dropped *)
-Fixpoint enc_run (fixed : bool) (w : world) (os : list op) : list (list Z) :=
-  match os with
-  | [] => []
-  | o :: os' =>
-      let '(w1, out) := wstep fixed w o in
-      if w_is_stuck w1 then [[9%Z]]
-      else enc_out out :: enc_effects o (se_cx (w_env w1)) ::
-           match o with ODropWorld => [] | _ => enc_run fixed w1 os' end
+(* model transcript: per performed operation the output and the effects; a quiet
+   operation (the storage access made by a lazy insert / remove) has no entry of
+   its own, what it destroys is reported with the entry before it; ends with [9]
+   at the first stuck state; nothing after the world was dropped *)
+Definition flush (pend : option (op * wout)) (w : world) : list (list Z) :=
+  match pend with
+  | Some (o, out) => [enc_out out; enc_effects o (se_cx (w_env w))]
+  | None => []
   end.
 
+Fixpoint enc_run (fixed : bool) (w : world) (pend : option (op * wout)) (os : list op) : list (list Z) :=
+  match os with
+  | [] => flush pend w
+  | OQuiet so :: os' =>
+      let '(w1, _) := wstep_core fixed w (OQuiet so) in
+      if w_is_stuck w1 then flush pend w ++ [[9%Z]] else enc_run fixed w1 pend os'
+  | o :: os' =>
+      flush pend w ++
+      (let '(w1, out) := wstep fixed w o in
+       if w_is_stuck w1 then [[9%Z]]
+       else match o with
+            | ODropWorld => flush (Some (o, out)) w1
+            | _ => enc_run fixed w1 (Some (o, out)) os'
+            end)
+  end.
+
+(* the operations in the order in which the world performs them *)
+Definition performed (h : list Z) : list op := flatten (decode_history h).
+
 Definition model_transcript (fixed : bool) (h : list Z) : list (list Z) :=
-  enc_run fixed w_init (decode_history h).
+  enc_run fixed w_init None (performed h).
 
 (* pair the ops with the decoded outputs (and raw effect entries) of an observed
    transcript; stops at the first undecodable output (e.g. the panic marker) *)
 Fixpoint pair_tr (os : list op) (t : list (list Z)) : list (op * wout * list Z) :=
   match os, t with
+  | OQuiet so :: os', _ => (OQuiet so, WUnit, []) :: pair_tr os' t
   | o :: os', x :: eff :: t' =>
       match dec_out x with
       | Some out => (o, out, eff) :: match o with ODropWorld => [] | _ => pair_tr os' t' end
@@ -114,31 +132,57 @@ Definition handle_dead (w : sworld) (o : op) : bool :=
   | _ => false
   end.
 
-(* acceptance by the specification (lifecycle allocator + plain-map storages):
-   (position, code, stale): code 0 accepted, 1 output differs, 2/3 invalid choice,
-   4 destroyed values differ; stale = the rejected operation went through a dead handle *)
-Fixpoint saccept_z (w : sworld) (tr : list (op * wout * list Z)) (pos : Z) : Z * Z * Z :=
+(* the code of an operation in the history format (quiet operations: 100 + the code) *)
+Definition sop_code (so : sop) : Z :=
+  match so with
+  | SInsert _ _ _ => 30 | SGet _ _ => 31 | SGetMut _ _ _ _ => 32 | SRemove _ _ => 33 | SContains _ _ => 34
+  | SCount _ => 35 | SIsEmpty _ => 36 | SMask _ => 37 | SSlice _ => 38 | SClear _ => 39 | SDrain _ _ => 40
+  | SEntry _ _ _ => 41 | SGetMutOrDefault _ _ => 42 | SRegister _ => 50 | SRegReader _ => 70
+  | SReadEvents _ _ => 71 | SSetEmission _ _ => 72
+  end%Z.
+Definition op_code (o : op) : Z :=
+  match o with
+  | OCreate _ => 1 | OCreateDropped _ => 2 | OCreateIter _ => 3 | OECreate => 4 | OECreateIter _ => 5
+  | OEBuild _ _ => 6 | OLazyCreate _ => 7 | ODelete _ => 10 | ODeleteMany _ => 11 | OEDelete _ => 12
+  | ODeleteAll => 13 | OMaintain => 14 | OIsAlive _ => 20 | OWIsAlive _ => 21 | OJoinEntities => 22
+  | OEntityAt _ => 23 | OProbeAll => 24 | OStore so => sop_code so | ODropWorld => 99
+  | OLazyInsert _ _ _ => 60 | OLazyInsertAll _ _ => 61 | OLazyRemove _ _ => 62 | OLazyExec _ => 63
+  | OQuiet so => 100 + sop_code so | OBad => 0
+  end%Z.
+
+(* acceptance by the specification (lifecycle allocator + plain-map storages) of the performed
+   operations with the observed outputs; what a quiet operation destroys is accounted to the entry
+   before it.  Result (position, code, stale, opcode): code 0 accepted, 1 output differs, 2/3 invalid
+   choice, 4 destroyed values differ; stale = the rejected operation went through a dead handle;
+   opcode = the code of the rejected operation *)
+Fixpoint saccept_z (w : sworld) (tr : list (op * wout * list Z)) (pos : Z)
+                   (pimpl pspec : list N) (ppos pcode : Z) : Z * Z * Z * Z :=
+  let prev_ok := nlist_eqb (spec_drops pimpl) (spec_drops pspec) in
   match tr with
-  | [] => ((-1)%Z, 0%Z, 0%Z)
+  | [] => if prev_ok then ((-1)%Z, 0%Z, 0%Z, 0%Z) else (ppos, 4%Z, 0%Z, pcode)
   | (o, out, eff) :: tr' =>
       let '(w1, out1) := sstep w o (choices_of out) in
-      let stale := enc_bool (handle_dead w o) in
-      if negb (s_ok w1) then (pos, reject_code w out, stale)
-      else if negb (wout_eqb_spec out out1) then (pos, 1%Z, stale)
-      else if negb (nlist_eqb (spec_drops (dec_effect_drops eff))
-                              (spec_drops (rev (cx_drops (se_cx (s_env w1)))))) then (pos, 4%Z, stale)
-      else saccept_z w1 tr' (pos + 1)%Z
+      let d1 := rev (cx_drops (se_cx (s_env w1))) in
+      match o with
+      | OQuiet _ => saccept_z w1 tr' (pos + 1)%Z pimpl (pspec ++ d1) ppos pcode
+      | _ =>
+          let stale := enc_bool (handle_dead w o) in
+          if negb prev_ok then (ppos, 4%Z, 0%Z, pcode)
+          else if negb (s_ok w1) then (pos, reject_code w out, stale, op_code o)
+          else if negb (wout_eqb_spec out out1) then (pos, 1%Z, stale, op_code o)
+          else saccept_z w1 tr' (pos + 1)%Z (dec_effect_drops eff) d1 pos (op_code o)
+      end
   end.
 
 (* verdict on an observed transcript:
-   [ complete; acc_pos; acc_code; c01_direct; c02_direct; stale ] *)
+   [ complete; acc_pos; acc_code; c01_direct; c02_direct; stale; opcode ] *)
 Definition verdict (h : list Z) (t : list (list Z)) : list Z :=
-  let os := ops_until_drop (decode_history h) in
+  let os := ops_until_drop (performed h) in
   let tr3 := pair_tr os t in
   let tr := map (fun x => (fst (fst x), snd (fst x))) tr3 in
   let complete := Nat.eqb (length tr) (length os) in
-  let '(p, c, st) := saccept_z (s_init_env true) tr3 0%Z in
-  [enc_bool complete; p; c; enc_bool (c01_direct tr); enc_bool (c02_direct tr); st].
+  let '(p, c, st, oc) := saccept_z (s_init_env true) tr3 0%Z [] [] 0%Z 0%Z in
+  [enc_bool complete; p; c; enc_bool (c01_direct tr); enc_bool (c02_direct tr); st; oc].
 
 (* ------------------------------------------------------------------ *)
 (* the `derive` domain (C18): one line = one case; first integer 0 = a
